@@ -223,7 +223,12 @@ class MPSBackendImpl:
         # has_state_preparation_error
         if self.pulser_data.state_prep_error > 0.0:
             bad_atoms = self.pulser_data.bad_atoms
-            self.well_prepared_qubits_filter = torch.logical_not(torch.tensor(bad_atoms))
+            # bad_atoms is in register order, whereas the filter is applied to the
+            # permuted interaction matrix, drives and MPS sites: site k holds
+            # register atom qubit_permutation[k].
+            self.well_prepared_qubits_filter = torch.logical_not(
+                torch.tensor(bad_atoms)
+            )[self.qubit_permutation]
         else:
             self.well_prepared_qubits_filter = None
         logging.getLogger("emulators").debug(
